@@ -83,7 +83,7 @@ _dir = None
 def worker_init():
     global _dir
     base = "/dev/shm" if os.path.isdir("/dev/shm") else tempfile.gettempdir()
-    _dir = tempfile.mkdtemp(prefix="vp-c13-%d-" % os.getpid(), dir=base)
+    _dir = tempfile.mkdtemp(prefix="vp-c13-%d-%d-" % (os.getppid(), os.getpid()), dir=base)
     for k, v in FIXED.items():
         p = os.path.join(_dir, k); os.makedirs(os.path.dirname(p), exist_ok=True); open(p, "wb").write(v)
     make_links(_dir)
@@ -236,6 +236,8 @@ def run(tier):
     cli_leg(rep, tier)
     rep.add_sample(dict(files={"a.txt": "F0-start\n\n{{b.txt}}\n\n{{w.*}}\n\nF0-end\n", "b.txt": "F1-start\n\n{{a.txt}}\n\nF1-end\n"}, format="html", note="2-cycle: must terminate"))
     rep.add_sample(dict(files={"a.txt": "F0-start\n\n{{tb.txt}}\n\nF0-end\n"}, fixed={"tb.txt": FIXED["tb.txt"].decode(), "base/x.txt": FIXED["base/x.txt"].decode()}))
+    import glob
+    for d in glob.glob(os.path.join("/dev/shm" if os.path.isdir("/dev/shm") else tempfile.gettempdir(), "vp-c13-%d-*" % os.getpid())): shutil.rmtree(d, ignore_errors=True)      # scratch folders of this run's workers
     return rep.finish()
 
 def replay(rec):
